@@ -358,6 +358,12 @@ impl CommitKey {
     /// file, we recommend to use [`CommitKey::from_slice_unchecked`] and
     /// [`CommitKey::to_raw_var_bytes`].
     pub fn from_slice(bytes: &[u8]) -> Result<CommitKey, Error> {
+        // A key without powers can commit to nothing and breaks the
+        // `len() - 1` degree arithmetic; the raw decoder rejects it too.
+        if bytes.is_empty() {
+            return Err(Error::NotEnoughBytes);
+        }
+
         let powers_of_g = bytes
             .chunks(G1Affine::SIZE)
             .map(G1Affine::from_slice)
